@@ -194,6 +194,8 @@ class Report:
             print(f'VIOLATION property={self.prop} replay={path}')
             log('  ', cid, json.dumps(detail)[:400])
             seen += 1
+        if self.violations:
+            open(f'{V}/replays/{self.prop}/ALL.txt', 'w').write(''.join(str(c) + '\n' for c, _ in self.violations))
         if len(self.violations) > seen:
             log(f'  ... and {len(self.violations) - seen} more violating cases')
         cov = dict(self.cov)
